@@ -315,7 +315,9 @@ func init() {
 		if *harvest != "" {
 			lits := harvestLiterals(*harvest)
 			for i, l := range lits {
-				if i%*hstride != *hoffset%*hstride {
+				// long pattern-like literals (the realistic patterns of the test-suite) are always taken
+				always := len(l) >= 25 && (strings.Contains(l, "\\") || strings.Contains(l, "(?") || strings.Contains(l, "["))
+				if !always && i%*hstride != *hoffset%*hstride {
 					continue
 				}
 				// inputs: derived from the pattern itself, and the literals next to it in the same file (tests keep
